@@ -187,6 +187,36 @@ SpecialProg(kind) ==
               <<SP, "M1", ".", "W", SP, "5">>, <<SP, "M1", ".", "B", SP, "6">>, <<SP, "M1", ".", "B", SP, "7">>,
               <<"LQ", SP, "M1", ".", "L", SP, "LQ">>>>]
 
+\* the private symbol space ACROSS a nested construct: the outer body defines a label before the nested construct
+\* (pre), the nested body refers to it, and after the nested construct has ended the outer body refers to it again
+\* and defines another label; the outer construct is expanded twice and a global label of the same name exists, so
+\* a reference that loses its scope silently binds to the global one.  Every outer x inner pair, inner count n.
+ScopeInner(kind, n) ==
+  LET ib == <<L(<<"LI">>, "DW", <<"LI">>), DW(<<"LA">>)>>
+  IN CASE kind = "REPT"  -> <<L(<<>>, "REPT", N(n))>> \o ib \o <<ENDM>>
+       [] kind = "IRP"   -> <<L(<<>>, "IRP", Cs(<<<<"X2">>>> \o [i \in 1..Max(n, 1) |-> N(i)]))>> \o ib \o <<DW(<<"X2">>), ENDM>>
+       [] kind = "IRPN"  -> <<L(<<>>, "IRPN", Cs(<<N(2), <<"X2">>, <<"Y2">>>> \o [i \in 1..(2 * Max(n, 1)) |-> N(i)]))>> \o ib \o <<DW(<<"Y2">>), ENDM>>
+       [] kind = "IRPC"  -> <<L(<<>>, "IRPC", Cs(<<<<"X2">>, <<QUOTE>> \o [i \in 1..n |-> ToString(i)] \o <<QUOTE>>>>))>> \o ib \o <<ENDM>>
+       [] kind = "WHILE" -> <<L(<<"C2">>, "SET", N(n)), L(<<>>, "WHILE", <<"C2">>)>> \o ib \o <<L(<<"C2">>, "SET", <<"C2", "-", "1">>), ENDM>>
+       [] kind = "CALL"  -> <<L(<<>>, "M9", N(n))>>
+       [] kind = "CALL0" -> <<L(<<>>, "M8", <<>>)>>
+       [] OTHER          -> <<L(<<>>, "INCLUDE", <<"I1", ".", "INC">>)>>
+ScopeInners == {"REPT", "IRP", "IRPN", "IRPC", "WHILE", "CALL", "CALL0", "INCL"}
+ScopeOuters == {"REPT", "IRP", "IRPN", "IRPC", "WHILE", "MACRO"}
+ScopeProg(outer, inner, n, pre) ==
+  LET body == (IF pre THEN <<L(<<"LA">>, "DW", <<"LA">>)>> ELSE <<>>) \o ScopeInner(inner, n)
+              \o <<L(<<"LB">>, "DW", <<"LA">>), DW(<<"LB">>)>>
+      defs == <<L(<<"M8">>, "MACRO", <<>>), ENDM, L(<<"M9">>, "MACRO", <<"A">>), L(<<"LI">>, "DW", <<"LI">>), DW(<<"LA">>), DW(<<"A">>), ENDM>>
+      use == CASE outer = "REPT"  -> <<L(<<>>, "REPT", N(2))>> \o body \o <<ENDM>>
+               [] outer = "IRP"   -> <<L(<<>>, "IRP", Cs(<<<<"X1">>, N(5), N(6)>>))>> \o body \o <<ENDM>>
+               [] outer = "IRPN"  -> <<L(<<>>, "IRPN", Cs(<<N(2), <<"X1">>, <<"Y1">>, N(5), N(6), N(7)>>))>> \o body \o <<ENDM>>
+               [] outer = "IRPC"  -> <<L(<<>>, "IRPC", Cs(<<<<"X1">>, <<QUOTE, "5", "6", QUOTE>>>>))>> \o body \o <<ENDM>>
+               [] outer = "WHILE" -> <<L(<<"C1">>, "SET", N(2)), L(<<>>, "WHILE", <<"C1">>)>> \o body \o <<L(<<"C1">>, "SET", <<"C1", "-", "1">>), ENDM>>
+               [] OTHER           -> <<L(<<"M1">>, "MACRO", <<>>)>> \o body \o <<ENDM, L(<<>>, "M1", <<>>), L(<<>>, "M1", <<>>)>>
+  IN [f \in {"a.asm", "I1.INC"} |->
+        IF f = "a.asm" THEN <<L(<<"LA">>, "DB", N(9))>> \o defs \o use \o <<DW(<<"LA">>)>>
+        ELSE <<DW(<<"LA">>), DB(N(3))>>]
+
 \* INCLUDE of generated files (nested up to 3), the included file uses the constructs of the including one
 InclProg(depth, viaMacro) ==
   LET inc(i) == "I" \o ToString(i) \o ".INC"
